@@ -1,0 +1,33 @@
+//go:build verif
+
+// Contracts for the rewrite AST (comment-only; build tag verif).
+
+package ast
+
+// every implementation of Child.AsRewrite returns a rewrite (proved for the four node types
+// below; the interface-level contract is what callers use)
+//@ func Child.AsRewrite
+//@   trusted
+//@   pure
+//@   ensures result != nil
+
+//@ func (*SubjectSetRewrite).AsRewrite
+//@   props C10
+//@   modifies nothing
+//@   requires r != nil
+//@   ensures result != nil && result == r
+
+//@ func (*ComputedSubjectSet).AsRewrite
+//@   props C10
+//@   modifies nothing
+//@   ensures result != nil && fresh(result) && len(result.Children) == 1
+
+//@ func (*TupleToSubjectSet).AsRewrite
+//@   props C10
+//@   modifies nothing
+//@   ensures result != nil && fresh(result) && len(result.Children) == 1
+
+//@ func (*InvertResult).AsRewrite
+//@   props C10
+//@   modifies nothing
+//@   ensures result != nil && fresh(result) && len(result.Children) == 1
